@@ -148,6 +148,7 @@ func (af *AutoFile) Write(b []byte) (n int, err error) {
 func (af *AutoFile) Sync() error {
 	af.mtx.Lock()
 	defer af.mtx.Unlock()
+	defer verifSynced(af) // no-op without the verif build tag
 
 	if af.file == nil {
 		if err := af.openFile(); err != nil {
